@@ -29,7 +29,12 @@ def synth(db):
 template class Tins::AddressRange< Tins::HWAddress<6> >;
 template class Tins::AddressRange< Tins::IPv4Address >;
 template class Tins::AddressRange< Tins::IPv6Address >;
+template class Tins::AddressRangeIterator< Tins::HWAddress<6> >;
+template class Tins::AddressRangeIterator< Tins::IPv4Address >;
+template class Tins::AddressRangeIterator< Tins::IPv6Address >;
 template struct std::hash< Tins::HWAddress<6> >;
+template bool Tins::Internals::increment<6>(Tins::HWAddress<6>&);
+template bool Tins::Internals::decrement<6>(Tins::HWAddress<6>&);
 template Tins::HWAddress<6> Tins::Internals::last_address_from_mask<6>(Tins::HWAddress<6>, const Tins::HWAddress<6>&);
 static bool verif_use_hw_ops(const Tins::HWAddress<6>& a, const Tins::HWAddress<6>& b) {
     return a == b || a != b || a < b || a <= b || a > b || a >= b || (a & b) == a;
@@ -55,11 +60,16 @@ def run(db, rep, tier):
     r3(db, rep)
     r4(db, rep)
     r5(db, rep)
+    rep.rule("R6-successor", "increment() of every address type is the big-endian successor and returns true exactly on wrap-around; the range "
+                             "iterator's end detection is built on that flag", 14)
+    r6(db, rep)
     rep.explanation = ("NARROW claim for C16: decides membership-as-ordering, operator consistency, hash/equality dependence, "
                        "the rejection discipline of the text parsers (incl. the exact accept set and digit values of the "
                        "hardware-address parser, by evaluating its character tests over all 256 byte values) and the bitwise shape "
                        "of the mask helpers. Does NOT decide the text round trip of IPv4/IPv6 (delegated to inet_pton/ntop), "
-                       "agreement of < with numeric byte order, prefix-length masks, or iteration (wrap at the all-ones address).")
+                       "agreement of < with numeric byte order or prefix-length masks.  Iteration: the successor functions "
+                       "(abstract interpretation of the byte-wise carry chain; wrap flag of the scalar IPv4 one) and the iterator's "
+                       "end protocol are decided (R6).")
     rep.assumptions += ["<, == of the address types form a strict total order (R2 checks they read the same storage)"]
 
 
@@ -440,3 +450,117 @@ def r5(db, rep):
 def is_index_arith(f, x):
     t = facts.ty(f, x)
     return bool(t) and t.get("k") == "ptr"
+
+
+ADDR_BYTES = {"Tins::IPv6Address": 16, "Tins::HWAddress<6>": 6, "Tins::HWAddress<6UL>": 6}
+
+
+def r6(db, rep):
+    """iteration: successor functions and the iterator's end protocol"""
+    from vlib import bytewalk
+    # (a) byte-buffer carry chains, by abstract interpretation over {pivot, not pivot, any} bytes of the real length
+    n = 0
+    for fid, f in sorted(db.functions.items()):
+        for nm, up in (("increment_buffer<", True), ("decrement_buffer<", False)):
+            if not fid.startswith("Tins::Internals::" + nm) or not f.get("body"):
+                continue
+            T = fid[len("Tins::Internals::" + nm):].split(">(")[0]
+            T = T if T in ADDR_BYTES else T + ">" if T + ">" in ADDR_BYTES else T
+            size = ADDR_BYTES.get(T)
+            key = "%s%s>" % (nm, T.replace("Tins::", ""))
+            if size is None:
+                rep.analysis_broken("%s: unknown address type %s" % (fid, T))
+                continue
+            n += 1
+            try:
+                bad, paths = bytewalk.carry_check(f, f["params"][0]["var"], size, up)
+            except bytewalk.Unsupported as e:
+                rep.analysis_broken("%s: outside the byte-walk interpreter: %s" % (key, e))
+                continue
+            if bad:
+                rep.violation("R6-successor", key, facts.loc(f), bad)
+            else:
+                rep.ok("R6-successor", key, facts.loc(f), "all %d carry lengths 0..%d: trailing run wrapped, next byte bumped, rest untouched, "
+                       "true only when every byte wrapped (%d abstract paths)" % (size + 1, size, paths))
+    if n < 2:
+        rep.analysis_broken("increment_buffer / decrement_buffer instantiations not found (%d)" % n)
+    # (b) the scalar IPv4 successor: the flag must mean "wrapped to zero" like the generic one
+    fs = [f for fid, f in db.functions.items() if fid.startswith("Tins::Internals::increment(Tins::IPv4Address")]
+    if not fs or not fs[0].get("body"):
+        rep.analysis_broken("Internals::increment(IPv4Address&) vanished")
+    else:
+        f = fs[0]
+        key = "increment(IPv4Address&):flag"
+        cands = []
+        for x in facts.fn_nodes(f):
+            if x["k"] == "BinaryOperator" and x.get("op") in ("==", "!="):
+                for a, b in ((x["c"][0], x["c"][1]), (x["c"][1], x["c"][0])):
+                    a0 = facts.strip_all(a)
+                    if a0["k"] == "UnaryOperator" and a0.get("op") == "++" and facts.cval(b) is not None:
+                        cands.append((x, a0, int(facts.cval(b)) & 0xffffffff))
+        if len(cands) != 1:
+            rep.analysis_broken("increment(IPv4Address&): the wrap test `++v == C` was not recognised (%d candidates)" % len(cands))
+        else:
+            x, inc, c = cands[0]
+            want = 0xffffffff if inc.get("postfix") else 0
+            pol = x["op"] == "=="
+            if c == want and pol:
+                rep.ok("R6-successor", key, facts.loc(f, x), "`%s`: true exactly when the 32-bit value wrapped to 0" % facts.expr_str(x))
+            else:
+                rep.violation("R6-successor", key, facts.loc(f, x),
+                              "`%s` is true when the NEW address is 0x%08x, not when the increment wrapped past 255.255.255.255: "
+                              "end() of a range ending at the all-ones address is (0.0.0.0, flag false), which equals begin() of the range "
+                              "0.0.0.0-255.255.255.255 - iterating it visits nothing; the byte-wise increment (IPv6, hardware addresses) "
+                              "reports wrap-around" % (facts.expr_str(x), c if not inc.get("postfix") else (c + 1) & 0xffffffff))
+    # (c) iterator protocol
+    for fid, f in sorted(db.functions.items()):
+        rn = f.get("rec") or ""
+        if not rn.startswith("Tins::AddressRangeIterator<") or rn.endswith("::end_iterator") or not f.get("body"):
+            continue
+        T = rn[len("Tins::AddressRangeIterator<"):-1]
+        if True:
+            short = "AddressRangeIterator<%s>" % T.replace("Tins::", "")
+            if f.get("qual", "").endswith("operator=="):
+                from vlib import formula
+                rets = [x for x in facts.fn_nodes(f) if x["k"] == "ReturnStmt" and x.get("c")]
+                ok, why = False, "operator== is not a single return"
+                if len(rets) == 1:
+                    try:
+                        atoms, table = formula.expr_table(f, rets[0]["c"][0])
+                        role = {}
+                        for a in atoms:
+                            if a.count("reached_end_") == 2:
+                                role[a] = "flag"
+                            elif a.count("address_") == 2:
+                                role[a] = "addr"
+                        if sorted(role.values()) != ["addr", "flag"] or len(atoms) != 2:
+                            why = ("operator== must compare address_ with rhs.address_ and reached_end_ with rhs.reached_end_, it compares %s: "
+                                   "end() of a range ending at the all-ones address cannot be told from begin()" % atoms)
+                        else:
+                            ok = all(res == all(vals) for vals, res in table.items())
+                            why = "equal iff both the address and the wrap flag are equal" if ok else \
+                                "operator== is not the conjunction of the two comparisons"
+                    except Exception as e:
+                        rep.analysis_broken("%s::operator==: %s" % (short, e))
+                        continue
+                (rep.ok if ok else rep.violation)("R6-successor", short + "::operator==", facts.loc(f), why)
+            is_end_ctor = f.get("kind") == "ctor" and len(f["params"]) == 2
+            is_preinc = f.get("qual", "").endswith("operator++") and len(f["params"]) == 0
+            if is_end_ctor or is_preinc:
+                sets = [x for x in facts.fn_nodes(f) if x["k"] == "BinaryOperator" and x.get("op") == "=" and
+                        this_member(x["c"][0]) == "reached_end_"]
+                good = [x for x in sets if any(y["k"] == "CallExpr" and y.get("cname") == "increment" and
+                                               any(this_member(z) == "address_" for z in facts.walk(y)) for y in facts.walk(x["c"][1]))]
+                key = short + ("::ctor(end)" if is_end_ctor else "::operator++")
+                if good and len(good) == len(sets):
+                    rep.ok("R6-successor", key, facts.loc(f), "reached_end_ = increment(address_)")
+                else:
+                    rep.violation("R6-successor", key, facts.loc(f),
+                                  "the wrap flag is not taken from increment(address_): the end sentinel and the running iterator can disagree")
+
+
+def this_member(n):
+    n = strip(n)
+    if n["k"] == "MemberExpr" and n.get("isfield") and n.get("c") and strip(n["c"][0])["k"] == "CXXThisExpr":
+        return n["member"]
+    return None
